@@ -55,6 +55,7 @@ func clntStreamC19(seed uint64, thorough bool) {
 	clntGenC08(r, false, sample(2))
 	clntGenC12(r, false, sample(12))
 	clntGenRolling(r, sample(1))
+	clntGenShortWrite(r, sample(1))
 	run.flush()
 }
 
@@ -79,6 +80,8 @@ func clntRotateCtor(c *clntCase, n *int) {
 				out[i].rd = []int{clntRdTimeout, clntRdTimeoutBare, clntRdTimeoutWrapped}[(*n+i+salt)%3]
 			case clntRdEOF:
 				out[i].rd = []int{clntRdEOF, clntRdEOFWrapped}[(*n+i+salt)%2]
+			case clntRdIOErr:
+				out[i].rd = []int{clntRdIOErr, clntRdIOErrTimeout}[(*n+i+salt)%2]
 			}
 		}
 		return out
@@ -122,6 +125,31 @@ func clntRoll(q *clntRq) *clntRq {
 	q.req = &clntRollingReq{Request: q.req}
 	q.rolling = true
 	return q
+}
+
+// clntGenShortWrite: Write returns a short count with a nil error
+func clntGenShortWrite(r *rng, f func(c *clntCase)) {
+	i := 0
+	for kind := 0; kind < 3; kind++ {
+		fr := clntFrOf(kind)
+		for _, fc := range fcs {
+			q := clntMkRq(r, fc, fr, 1+r.intn(2))
+			rep := q.reply(r)
+			b := rep.bytes
+			n := len(q.req.Bytes())
+			for _, k := range []int{1, 8, n - 1, 2 + r.intn(n-2)} {
+				if k <= 0 || k >= n {
+					continue
+				}
+				for _, steps := range [][]clntStep{clntCut(b), clntCutAs(b, clntClassMixes[i%4], 1+r.intn(len(b)-1)),
+					{clntData(b[:1]), clntIOErr(nil)}} {
+					i++
+					f(&clntCase{kind: kind, conn: true, flusher: i%2 == 0, hooks: i%3 != 0, rq: q,
+						sc: clntScript{short: k, steps: steps}, want: rep.want})
+				}
+			}
+		}
+	}
 }
 
 // clntGenRolling: requests with a non-idempotent Bytes(): normal exchanges, faults after the write,
@@ -689,6 +717,42 @@ func clntGenC07(r *rng, thorough bool, f func(c *clntCase)) {
 			}
 		}
 	}
+	// long runs of empty timed-out reads (14..20 in a row) before the reply and between its fragments:
+	// with the short read timeout of the timer scripts (the tail is never reached) and with the
+	// generous one
+	for kind := 0; kind < 3; kind++ {
+		fr := clntFrOf(kind)
+		quiets := func(n int) []clntStep {
+			var s []clntStep
+			for ; n > 0; n-- {
+				s = append(s, clntQuiet())
+			}
+			return s
+		}
+		for _, fc := range fcs {
+			for variant := 0; variant < 2; variant++ {
+				q := clntMkRq(r, fc, fr, variant+1)
+				rep := q.reply(r)
+				b := rep.bytes
+				c := 1 + r.intn(len(b)-1)
+				before := append(quiets(14+r.intn(7)), clntCutAs(b, clntClassMixes[r.intn(4)], c)...)
+				st := clntCutAs(b, clntClassMixes[r.intn(4)], c)
+				between := append(append([]clntStep{st[0]}, quiets(14+r.intn(7))...), st[1])
+				both := append(append(quiets(16), st[0]), append(quiets(20), st[1])...)
+				for _, steps := range [][]clntStep{before, between, both} {
+					i++
+					f(&clntCase{kind: kind, conn: true, flusher: i%3 == 0, hooks: i%2 == 0, rq: q,
+						sc: clntScript{steps: append(append([]clntStep(nil), steps...), clntTail()...)}, want: rep.want})
+					i++
+					f(&clntCase{kind: kind, conn: true, flusher: i%3 == 0, hooks: i%2 == 0, rq: q,
+						sc: clntScript{steps: steps}, want: rep.want})
+				}
+			}
+		}
+	}
+	// a transport whose Write takes only k bytes per call (k = 1, 8, len-1) and reports the short count
+	// without an error
+	clntGenShortWrite(r, f)
 	// a reply followed by a real stall: the total timer must not be needed
 	for kind := 0; kind < 3; kind++ {
 		for _, fc := range fcs {
@@ -748,6 +812,8 @@ func clntGenC08(r *rng, thorough bool, f func(c *clntCase)) {
 		}
 		// I/O error, without and with bytes
 		mk(kind, q, rep, clntScript{fl: fl, steps: append(pre(), clntIOErr(nil))})
+		// a hard failure whose error says Timeout() == true but is not the read deadline (ETIMEDOUT)
+		mk(kind, q, rep, clntScript{steps: append(pre(), clntStep{rd: clntRdIOErrTimeout})})
 		mk(kind, q, rep, clntScript{steps: append(pre(), clntQuiet(), clntIOErr(junk(1+r.intn(3))))})
 		// more bytes than a frame can hold: far too many, and one too many
 		mk(kind, q, rep, clntScript{fl: fl, steps: append(pre(), clntData(junk(300)))})
